@@ -184,6 +184,19 @@ func genC03(dir, tier string, seed int64) {
 			}
 			a := poolTensor(r, d, sa, false)
 			b := poolTensor(r, d, sb, op == "Div")
+			if k < 16 { // x op x: both operands hold the same values (separate objects here; the aliased_operands observation passes ONE object); floats in half of them, so that NaN op NaN, Inf - Inf, 0/0 are met
+				if k%2 == 0 {
+					for _, fd := range accepted {
+						if fd == tensor.Float32 || fd == tensor.Float64 {
+							d = fd
+						}
+					}
+				}
+				sa = shapes[len(shapes)-1-r.Intn(6)]
+				a = poolTensor(r, d, sa, op == "Div")
+				b = a.Clone().(tensor.Tensor)
+				sb = sa
+			}
 			emitOp(cw, op, nil, func() []tensor.Tensor { return []tensor.Tensor{a.Clone().(tensor.Tensor), b.Clone().(tensor.Tensor)} })
 			count("dtype", d.String())
 			count("rank_pair", fmt.Sprintf("%d-%d", len(sa), len(sb)))
